@@ -141,8 +141,15 @@ def run(scratch, harnesses, jobs=8, extra=None, log_path=None, timeout=None):
     env["CARGO_TARGET_DIR"] = CACHE
     t0 = time.time()
     overall = timeout or (maxto * max(1, (len(names) + jobs - 1) // jobs) + 900)
+    def limit():
+        # every child (kani-compiler, goto-instrument, cbmc) gets an address-space cap so that one runaway solver
+        # cannot take the machine down; hitting it is reported as `resource` (undecided), never as a violation
+        import resource
+        cap = int(os.environ.get("VC_MEM_GB", "28")) << 30
+        resource.setrlimit(resource.RLIMIT_AS, (cap, cap))
     try:
-        p = subprocess.run(cmd, cwd=scratch, env=env, capture_output=True, text=True, timeout=overall)
+        p = subprocess.run(cmd, cwd=scratch, env=env, capture_output=True, text=True, timeout=overall,
+                           preexec_fn=limit)
         out = p.stdout + "\n--- stderr ---\n" + p.stderr
         rc = p.returncode
     except subprocess.TimeoutExpired as e:
@@ -276,6 +283,7 @@ def playback(scratch, harness_name, log_dir, jobs=1, timeout=1800):
         o = p2.stdout + p2.stderr
     except subprocess.TimeoutExpired:
         o = "native playback timed out"
-    out["native_output"] = o[-6000:]
+    keep = [l for l in o.split("\n") if re.search(r"panicked|test result|^test |assert|FAILED|failures|error\[", l)]
+    out["native_output"] = "\n".join(keep[-60:]) if keep else o[-3000:]
     out["reproduced"] = bool(re.search(r"test result: FAILED|panicked at", o))
     return out
